@@ -1323,11 +1323,14 @@ CMR_ERROR CMRchrmatCreateFromSparseStream(CMR* cmr, FILE* stream, CMR_CHRMAT** p
     size_t column;
     int value;
     numRead = fscanf(stream, "%zu %zu %d", &row, &column, &value);
-    if (numRead < 3 || row == 0 || column == 0 || row > numRows || column > numColumns)
+    if (numRead < 3 || row == 0 || column == 0 || row > numRows || column > numColumns || value < SCHAR_MIN
+      || value > SCHAR_MAX)
     {
       CMR_CALL( CMRfreeStackArray(cmr, &nonzeros) );
       if (numRead == 2)
         CMRraiseErrorMessage(cmr, "Could not read an integer value of nonzero #%zu.", entry);
+      else if (numRead == 3 && (value < SCHAR_MIN || value > SCHAR_MAX))
+        CMRraiseErrorMessage(cmr, "Value of nonzero #%zu does not fit into a char.", entry);
       else
         CMRraiseErrorMessage(cmr, "Could not read nonzero #%zu.", entry);
       return CMR_ERROR_INPUT;
@@ -1658,9 +1661,14 @@ CMR_ERROR CMRchrmatCreateFromDenseStream(CMR* cmr, FILE* stream, CMR_CHRMAT** pr
     {
       double x;
       numRead = fscanf(stream, "%lf", &x);
-      if (numRead < 1)
+      if (numRead < 1 || x < SCHAR_MIN || x > SCHAR_MAX || x != (double)(int) x)
       {
-        CMRraiseErrorMessage(cmr, "Could not read matrix entry in row %zu and column %zu.", row, column);
+        if (numRead < 1)
+          CMRraiseErrorMessage(cmr, "Could not read matrix entry in row %zu and column %zu.", row, column);
+        else
+          CMRraiseErrorMessage(cmr, "Matrix entry in row %zu and column %zu does not fit into a char.", row, column);
+        CMRfreeBlockArray(cmr, &entryColumns);
+        CMRfreeBlockArray(cmr, &entryValues);
         CMRchrmatFree(cmr, presult);
         return CMR_ERROR_INPUT;
       }
